@@ -332,6 +332,13 @@ class CallGraph:
             for n in walk_no_nested(fi.node):
                 if isinstance(n, ast.Call):
                     tg = self.res.call_targets(fi, n)
+                    # dataclasses.replace(obj, ...) constructs a new instance of obj's class: __init__ and
+                    # __post_init__ run again (with every side effect they have)
+                    if any(t == "dataclasses.replace" for t in tg) and n.args:
+                        dcs = [t for t in self.res.expr_types(fi, n.args[0]) if isinstance(t, ClassInfo) and t.is_dataclass]
+                        if not dcs:
+                            dcs = [c for c in self.prog.classes.values() if c.is_dataclass]
+                        tg = list(tg) + dcs
                     self.n_calls += 1
                     if tg:
                         self.n_resolved += 1
